@@ -11,7 +11,8 @@ One op per line, one canonical answer line per op — the same text `lean/Driver
 
     cfg <durs> <fails> <overlaps> <variant>   UOD K0..Kn: iterations until complete (0 = never), failing
                                               iteration (-1 = never), overlap lists `1,2;0,3` (`-` = none)
-    req <k>                                   interpreter-sourced request of UOD command K<k>
+    req <k> [bad]                             interpreter-sourced request of UOD command K<k>; `bad` = with an
+                                              argument the command's parser rejects
     user start|stop|restart
     tick
     cancel <id> / force <id>                  by request ordinal (999 = an id nobody knows)
@@ -118,7 +119,9 @@ class CmdRun:
             b = b.with_tag(Tag(name=f"T{j}", value=0))
         for k, (dur, fail) in enumerate(zip(spec["dur"], spec["fail"])):
             i, x, f = mk(k, dur, fail)
-            b = b.with_command(name=f"K{k}", exec_fn=x, init_fn=i, finalize_fn=f)
+            # every command has an argument parser that rejects the argument "bad" (parse_args -> None)
+            b = b.with_command(name=f"K{k}", exec_fn=x, init_fn=i, finalize_fn=f,
+                               arg_parse_fn=lambda a: None if a == "bad" else {})
         for g in spec["overlaps"]:
             b = b.with_command_overlap([f"K{k}" for k in g])
         self.uod = b.build()
@@ -170,7 +173,8 @@ class CmdRun:
             k = int(f[1])
             if not (e._runstate_started and not e._runstate_stopping) or k >= len(self.spec["dur"]):
                 return "unmodelled"
-            prog = e.method_manager.parse_inject_code(f"K{k}")
+            bad = len(f) > 2 and f[2] == "bad"
+            prog = e.method_manager.parse_inject_code(f"K{k}: bad" if bad else f"K{k}")
             node = prog.children[0]
             e.tracking.runtimeinfo._injected_node_map[node.id] = node
             from openpectus.lang.exec.runlog import RuntimeRecord
@@ -273,6 +277,10 @@ class CmdRun:
         inst = []
         for name in sorted(self.uod.command_instances):
             c = self.uod.command_instances[name]
+            if not c.is_initialized() and not any(x is c for x in self._cmds):
+                # created, never initialised (its arguments were rejected): it has had no callback yet
+                inst.append(f"{name[1:]}:-:{self.ids.get(c.instance_id, '?')}:0")
+                continue
             s = next(i for i, x in enumerate(self._cmds + [c]) if x is c)
             if s == len(self._cmds):
                 self._cmds.append(c)
